@@ -14,6 +14,8 @@ package oci
 //@ import manifestutil "oras.land/oras-go/v2/internal/manifestutil"
 //@ import content "oras.land/oras-go/v2/content"
 //@ import set "oras.land/oras-go/v2/internal/container/set"
+//@ import io "io"
+//@ import os "os"
 //@
 //@ ghost blobCount(st *Storage) int
 //@ ghost indexVersion(s *Store) int
@@ -119,9 +121,34 @@ package oci
 //@   ensures [C07:exact-complete] forall k descriptor.Descriptor :: inPreds(s.graph, K(node), k) ==> (exists i int :: 0 <= i && i < len(result0) && predKey(i) == k)
 //@   ensures [C07:no-error] result1 == nil
 //@
+//@ ghost local pushIngestOK bool
+//@ ghost local pushIngestPath string
 //@ func (*Storage).Push
-//@   trusted
-//@   modifies alloc, ghost.blobCount, ghost.matched, ghost.atEOF, ghost.digestOK, ghost.delivered, elems[byte]
+//@   requires [wf] s != nil
+//@   entry set pushIngestOK = false
+//@   call ingest set pushIngestOK = result1 == nil
+//@   call ingest set pushIngestPath = result0
+//@   call os.Rename requires [C05,C10:publish-only-verified-ingest] pushIngestOK && args.oldpath == pushIngestPath && args.newpath == target
+//@   call os.Remove requires [C05,C10:cleanup-never-touches-blobs] args.name == pushIngestPath
+//@   call ensureDir requires [C10:only-the-blob-directory-is-created] args.path == filepathDir(target)
+//@   ensures [C05:nil-means-verified] result == nil ==> matched(content, expected)
+//@   ensures [monotone] forall r io.Reader, d ocispec.Descriptor :: old(matched(r, d)) ==> matched(r, d)
+//@   modifies alloc, ghost.matched, ghost.atEOF, ghost.digestOK, ghost.delivered, new ghost.descOf, new ghost.srcOf, ghost.fileMode, ghost.closedRC, elems[byte], elems[any], elems[string], io.LimitedReader.N, new io.LimitedReader.R, content.VerifyReader.err, new content.VerifyReader.base, new content.VerifyReader.verifier, new content.VerifyReader.verified, ghost.blobCount
+//@
+//@ func (*Storage).ingest
+//@   opt trust-nopanic
+//@   requires [wf] s != nil
+//@   call os.CreateTemp requires [C10:temp-file-outside-blobs] args.dir == s.ingestRoot
+//@   call ensureDir requires [C10:temp-dir-is-ingest-root] args.path == s.ingestRoot
+//@   call os.Chmod requires [C10:chmod-the-ingest-file] args.name == fileName(fp)
+//@   ensures [C05:nil-means-verified] ingestErr == nil ==> matched(content, expected)
+//@   ensures [C10:ingest-file-in-ingest-root] ingestErr == nil ==> tempIn(path, s.ingestRoot) && fileMode(path) == 292
+//@   ensures [monotone] forall r io.Reader, d ocispec.Descriptor :: old(matched(r, d)) ==> matched(r, d)
+//@   modifies alloc, ghost.matched, ghost.atEOF, ghost.digestOK, ghost.delivered, new ghost.descOf, new ghost.srcOf, ghost.fileMode, ghost.closedRC, elems[byte], elems[any], elems[string], io.LimitedReader.N, new io.LimitedReader.R, content.VerifyReader.err, new content.VerifyReader.base, new content.VerifyReader.verifier, new content.VerifyReader.verified
+//@
+//@ func ensureDir
+//@   ensures [mkdir] true
+//@   modifies nothing
 //@
 //@ func (*Store).tag
 //@   requires [ri] storeRI(s)
